@@ -1,7 +1,7 @@
 (* C10, second half: what a decoder accepts, the same codec's encoder accepts.
    Encoder totality on well-formed values ([val_of], Proofs/AcceptedWellFormed.v) of types whose
-   tags can be written, for the definite unsegmented codecs BER and DER, up to the one refusal a
-   length can cause: contents of 256^126 octets or more. *)
+   tags can be written, for all three codecs in every mode (definite / indefinite, any segment
+   size), up to the one refusal a length can cause: contents of 256^126 octets or more. *)
 From Coq Require Import Lia Permutation.
 From PV Require Import Base.Bytes Model.Tag Model.TableTypes Model.Types Model.Proc Model.Enc Model.Dec Gen.Tables
      Proofs.LeafReal Proofs.RoundTrip1 Proofs.DerReference Proofs.AcceptedWellFormed.
@@ -20,8 +20,8 @@ Fixpoint csize (T: ty) (v: val) {struct T} : nat :=
   | TImp _ x | TExp _ x => csize x v
   | TBool => 1%nat
   | TInt | TEnum => match v with VInt z => S (length (twos_bytes z)) | _ => O end
-  | TBits => match v with VBits bs => S (length (bits_octets bs)) | _ => O end
-  | TOcts | TStr _ | TAny => match octets_of v with Some b => length b | None => O end
+  | TBits => match v with VBits bs => (132 * length bs + 1)%nat | _ => O end          (* segment headers included *)
+  | TOcts | TStr _ | TAny => match octets_of v with Some b => (131 * length b)%nat | None => O end
   | TNull => O
   | TOid => match v with VOid a => match enc_oid a with Ok b => length b | Err _ => O end | _ => O end
   | TReal => match v with VReal r => match enc_real r with Ok b => length b | Err _ => O end | _ => O end
@@ -343,49 +343,152 @@ Lemma csize_set fs vs : csize (TSet fs) (VRec vs) = fields_size fs vs. Proof. re
 Lemma csize_choice alts i x : csize (TChoice alts) (VChoice i x) = alt_size x alts i. Proof. reflexivity. Qed.
 
 (* ------------------------------------------------------------------------------------------ *)
+(* segmented strings                                                                          *)
+(* ------------------------------------------------------------------------------------------ *)
+
+Definition pieces_cost {A} (w: nat) (ps: list (list A)) : nat :=
+  fold_right (fun p acc => (w + length p + acc)%nat) O ps.
+
+(* cutting into pieces of at least one element: at most one header per element *)
+Lemma chunks_cost {A} (w k: nat) : (1 <= k)%nat -> forall fuel (l: list A),
+  (pieces_cost w (chunks fuel k l) <= (w + 1) * length l)%nat
+  /\ Forall (fun p => (length p <= length l)%nat) (chunks fuel k l).
+Proof.
+  intros Hk. induction fuel as [|f IH]; intros l; cbn [chunks].
+  - split; [cbn; lia|constructor].
+  - destruct l as [|x r]; [split; [cbn; lia|constructor]|].
+    destruct (IH (skipn k (x :: r))) as [Hc Hall].
+    pose proof (firstn_skipn k (x :: r)) as Hsplit.
+    assert (Hlen: (length (firstn k (x :: r)) + length (skipn k (x :: r)) = length (x :: r))%nat)
+      by (rewrite <- app_length, Hsplit; reflexivity).
+    assert (Hp: (1 <= length (firstn k (x :: r)))%nat).
+    { rewrite firstn_length. cbn [length]. lia. }
+    split.
+    + cbn [pieces_cost fold_right]. fold (pieces_cost w (chunks f k (skipn k (x :: r)))). nia.
+    + constructor; [lia|]. revert Hall. apply Forall_impl. intros p Hpl. lia.
+Qed.
+
+Lemma fold_pieces_gen {A} (tagnum: N) (f: list A -> bytes) : forall ps acc init, acc = Ok init ->
+  Forall (fun p => N.of_nat (length (f p)) < max_len) ps ->
+  exists s, fold_left (fun acc piece => do a <- acc; do p <- frame_piece tagnum (f piece); Ok (a ++ p)) ps acc = Ok s
+            /\ (length s <= length init + fold_right (fun p acc => tag_cost (utag false tagnum) + length (f p) + acc) O ps)%nat.
+Proof.
+  induction ps as [|p ps IH]; intros acc init Hacc Hall; cbn [fold_left fold_right].
+  - exists init. split; [exact Hacc|lia].
+  - inversion Hall as [|? ? Hp Hps]; subst.
+    destruct (frame_one_total' (utag false tagnum) false true true (f p) Hp) as (b & Eb & Hb).
+    destruct (IH (do a <- Ok init; do p0 <- frame_piece tagnum (f p); Ok (a ++ p0)) (init ++ b)) as (s & Es & Hs).
+    + cbn [bind]. unfold frame_piece. rewrite Eb. reflexivity.
+    + exact Hps.
+    + exists s. split; [exact Es|]. rewrite app_length in Hs. lia.
+Qed.
+
+Lemma fold_pieces {A} (tagnum: N) (f: list A -> bytes) : forall ps init,
+  Forall (fun p => N.of_nat (length (f p)) < max_len) ps ->
+  exists s, fold_left (fun acc piece => do a <- acc; do p <- frame_piece tagnum (f piece); Ok (a ++ p)) ps (Ok init) = Ok s
+            /\ (length s <= length init + fold_right (fun p acc => tag_cost (utag false tagnum) + length (f p) + acc) O ps)%nat.
+Proof. intros ps init. apply fold_pieces_gen. reflexivity. Qed.
+
+Lemma bits_octets_le bs : (length (bits_octets bs) <= length bs)%nat.
+Proof.
+  unfold bits_octets. rewrite LeafInt.be_bytes_length, app_length, repeat_length.
+  pose proof (LeafOidBits.pad_of_lt (length bs)) as Hp.
+  destruct (length bs) as [|n] eqn:E; [reflexivity|].
+  apply Nat.div_le_upper_bound; lia.
+Qed.
+
+Lemma octets_chunked_total v b k : octets_of v = Some b -> (1 <= k)%nat -> N.of_nat (131 * length b) < max_len ->
+  exists s, enc_string_chunked v k = Ok s /\ (length s <= 131 * length b)%nat.
+Proof.
+  intros Hv Hk Hn.
+  assert (Hgen: exists s, fold_left (fun acc piece => do a <- acc; do p <- frame_piece 4 piece; Ok (a ++ p))
+                                    (chunks (S (length b)) k b) (Ok []) = Ok s /\ (length s <= 131 * length b)%nat).
+  { destruct (chunks_cost 130 k Hk (S (length b)) b) as [Hc Hall].
+    destruct (fold_pieces 4 (fun x => x) (chunks (S (length b)) k b) []) as (s & Es & Hs).
+    - revert Hall. apply Forall_impl. intros p Hp. lia.
+    - exists s. split; [exact Es|]. cbn [length] in Hs. unfold pieces_cost in Hc.
+      change (tag_cost (utag false 4)) with 130%nat in Hs. lia. }
+  unfold enc_string_chunked. destruct v; cbn [octets_of] in Hv; try discriminate; inversion Hv; subst; exact Hgen.
+Qed.
+
+Lemma bits_chunked_total bs k : (1 <= k)%nat -> N.of_nat (132 * length bs + 1) < max_len ->
+  exists s, fold_left (fun acc piece => do a <- acc; do p <- frame_piece 3 (enc_bits_prim piece); Ok (a ++ p))
+                      (chunks (S (length bs)) k bs) (Ok []) = Ok s /\ (length s <= 132 * length bs + 1)%nat.
+Proof.
+  intros Hk Hn. destruct (chunks_cost 131 k Hk (S (length bs)) bs) as [Hc Hall].
+  assert (Hpiece: forall p: list bool, (length (enc_bits_prim p) <= 1 + length p)%nat).
+  { intros p. unfold enc_bits_prim. cbn [length]. pose proof (bits_octets_le p). lia. }
+  destruct (fold_pieces 3 enc_bits_prim (chunks (S (length bs)) k bs) []) as (s & Es & Hs).
+  - revert Hall. apply Forall_impl. intros p Hp. pose proof (Hpiece p). lia.
+  - exists s. split; [exact Es|]. cbn [length] in Hs. change (tag_cost (utag false 3)) with 130%nat in Hs.
+    assert (Hsum: (fold_right (fun p acc => 130 + length (enc_bits_prim p) + acc) O (chunks (S (length bs)) k bs)
+                   <= pieces_cost 131 (chunks (S (length bs)) k bs))%nat).
+    { generalize (chunks (S (length bs)) k bs). induction l as [|p l IHl]; cbn [fold_right pieces_cost]; [lia|].
+      fold (pieces_cost 131 l). pose proof (Hpiece p). lia. }
+    lia.
+Qed.
+
+Lemma octets_like_total o v b : octets_of v = Some b -> N.of_nat (131 * length b) < max_len ->
+  exists content ic, enc_octets_like o v = Ok (content, ic) /\ (length content <= 131 * length b)%nat.
+Proof.
+  intros Hv Hn. unfold enc_octets_like. rewrite Hv.
+  destruct (N.eqb (o_chunk o) 0) eqn:E0; cbn [orb]; [eexists; eexists; split; [reflexivity|lia]|].
+  destruct (Nat.leb (length b) (N.to_nat (o_chunk o))); [eexists; eexists; split; [reflexivity|lia]|].
+  destruct (octets_chunked_total v b (N.to_nat (o_chunk o)) Hv) as (s & Es & Hs); [apply N.eqb_neq in E0; lia|exact Hn|].
+  rewrite Es. cbn [bind]. eexists; eexists; split; [reflexivity|exact Hs].
+Qed.
+
+Lemma enc_bits_total o bs : N.of_nat (132 * length bs + 1) < max_len ->
+  exists content ic, enc_bits o bs = Ok (content, ic) /\ (length content <= 132 * length bs + 1)%nat.
+Proof.
+  intros Hn. unfold enc_bits. cbv zeta.
+  assert (Hprim: (length (enc_bits_prim bs) <= 132 * length bs + 1)%nat).
+  { unfold enc_bits_prim. cbn [length]. pose proof (bits_octets_le bs). lia. }
+  destruct (N.eqb (o_chunk o) 0) eqn:E0; cbn [orb]; [eexists; eexists; split; [reflexivity|exact Hprim]|].
+  destruct (Nat.leb (length bs + pad_of (length bs)) (N.to_nat (o_chunk o) * 8)); [eexists; eexists; split; [reflexivity|exact Hprim]|].
+  destruct (bits_chunked_total bs (N.to_nat (o_chunk o) * 8)) as (s & Es & Hs); [apply N.eqb_neq in E0; lia|exact Hn|].
+  rewrite Es. cbn [bind]. eexists; eexists; split; [reflexivity|exact Hs].
+Qed.
+
+(* ------------------------------------------------------------------------------------------ *)
 (* encoder totality                                                                           *)
 (* ------------------------------------------------------------------------------------------ *)
 
 Section Total.
   Variable c : codec.
-  Hypothesis Hc : c = BER \/ c = DER.
-
-  Lemma fix_opts_chunk o : o_chunk o = 0 -> o_chunk (fix_opts c o) = 0.
-  Proof. intros H. destruct Hc as [-> | ->]; cbn; [exact H|reflexivity]. Qed.
 
   Definition Pw (T: ty) : Prop := forall o v,
-    enc_ty c T = true -> val_of T v = true -> reals_fit v = true -> o_chunk o = 0 ->
+    enc_ty c T = true -> val_of T v = true -> reals_fit v = true ->
     N.of_nat (esize T v) < max_len ->
     exists b, enc_with c (enc_content c) T o v = Ok b /\ (length b <= esize T v)%nat.
 
   Definition Pc (T: ty) : Prop := forall cd fl o v,
     concrete_encoder c T = Ok (cd, fl) ->
-    enc_ty c T = true -> val_of T v = true -> reals_fit v = true -> o_chunk o = 0 ->
+    enc_ty c T = true -> val_of T v = true -> reals_fit v = true ->
     N.of_nat (csize T v) < max_len ->
     exists content ic, enc_content c T cd fl o v = Ok (content, ic) /\ (length content <= csize T v)%nat.
 
   Lemma Pc_Pw T : Pc T -> Pw T.
   Proof.
-    intros HP o v Hty Hv Hr Ho Hn. unfold enc_with.
+    intros HP o v Hty Hv Hr Hn. unfold enc_with.
     destruct (concrete_encoder_total c T) as (cd & fl & Ece & _). rewrite Ece. cbn [bind].
     destruct (enc_ty_tagset c T Hty) as [ts Ets]. rewrite Ets. cbn [bind].
     unfold esize in *. rewrite (tagset_of'_ok _ _ Ets) in *.
     destruct (HP cd fl (mkOpts (o_def (fix_opts c o)) (o_chunk (fix_opts c o)) false) v Ece Hty Hv Hr) as (content & ic & E & Hl).
-    - cbn [o_chunk]. apply fix_opts_chunk. exact Ho.
     - lia.
     - rewrite E. cbn [bind]. apply frame_total'; [exact Hl|exact Hn].
   Qed.
 
   (* ---- SEQUENCE OF / SET OF ---- *)
-  Lemma elems_total t o : Pw t -> enc_ty c t = true -> o_chunk o = 0 -> forall xs,
+  Lemma elems_total t o : Pw t -> enc_ty c t = true -> forall xs,
     forallb (val_of t) xs = true -> forallb reals_fit xs = true -> N.of_nat (elems_size t xs) < max_len ->
     exists parts, enc_elems_c c t o xs = Ok parts /\ (length (concat parts) <= elems_size t xs)%nat.
   Proof.
-    intros HP Hty Ho. induction xs as [|x r IH]; intros Hv Hr Hn.
+    intros HP Hty. induction xs as [|x r IH]; intros Hv Hr Hn.
     - exists []. split; [reflexivity|cbn; lia].
     - cbn [forallb] in Hv, Hr. apply andb_prop in Hv. apply andb_prop in Hr. destruct Hv as [Hv1 Hv2]. destruct Hr as [Hr1 Hr2].
       cbn [elems_size fold_right] in Hn. fold (elems_size t r) in Hn.
-      destruct (HP o x Hty Hv1 Hr1 Ho) as (p & Ep & Hp); [unfold esize; lia|].
+      destruct (HP o x Hty Hv1 Hr1) as (p & Ep & Hp); [unfold esize; lia|].
       destruct (IH Hv2 Hr2) as (ps & Eps & Hps); [lia|].
       cbn [enc_elems_c]. fold (enc_elems_c c t o). rewrite Ep. cbn [bind]. rewrite Eps. cbn [bind].
       exists (p :: ps). split; [reflexivity|]. cbn [concat elems_size fold_right]. fold (elems_size t r).
@@ -401,15 +504,15 @@ Section Total.
   Qed.
 
   (* ---- CHOICE ---- *)
-  Lemma alt_total o x : o_chunk o = 0 -> reals_fit x = true -> forall alts i a,
+  Lemma alt_total o x : reals_fit x = true -> forall alts i a,
     Forall Pw alts -> forallb (enc_ty c) alts = true -> nth_error alts i = Some a -> val_of a x = true ->
     N.of_nat (alt_size x alts i) < max_len ->
     exists content ic, enc_alt_c c o x alts i = Ok (content, ic) /\ (length content <= alt_size x alts i)%nat.
   Proof.
-    intros Ho Hr. induction alts as [|a0 r IH]; intros [|i] a HP Hty Hn Hv Hs; try discriminate.
+    intros Hr. induction alts as [|a0 r IH]; intros [|i] a HP Hty Hn Hv Hs; try discriminate.
     - cbn [nth_error] in Hn. inversion Hn; subst a0. inversion HP as [|? ? HPa _]; subst.
       cbn [forallb] in Hty. apply andb_prop in Hty.
-      destruct (HPa o x (proj1 Hty) Hv Hr Ho) as (p & Ep & Hp); [exact Hs|].
+      destruct (HPa o x (proj1 Hty) Hv Hr) as (p & Ep & Hp); [exact Hs|].
       cbn [enc_alt_c]. rewrite Ep. cbn [bind]. eexists; eexists; split; [reflexivity|exact Hp].
     - inversion HP; subst. cbn [forallb] in Hty. apply andb_prop in Hty.
       apply (IH i a); try assumption. apply Hty.
@@ -426,7 +529,7 @@ Section Total.
   Definition field_ty_ok (f: presence * ty) : bool :=
     enc_ty c (snd f) && match fst f with Def d => def_ok (snd f) d | _ => true end.
 
-  Lemma fields_total cd omit o : o_chunk o = 0 -> forall fs vs,
+  Lemma fields_total cd omit o : forall fs vs,
     Forall (fun f => Pw (snd f)) fs -> forallb field_ty_ok fs = true ->
     fields_ok val_of fs vs = true ->
     forallb (fun ov => match ov with Some x => reals_fit x | None => true end) vs = true ->
@@ -434,7 +537,7 @@ Section Total.
     exists parts, enc_rec_fields_c c cd omit o fs vs = Ok parts
                   /\ (length (concat (map snd parts)) <= fields_size fs vs)%nat.
   Proof.
-    intros Ho. induction fs as [|[p t] fs IH]; intros [|ov vs] HP Hty Hv Hr Hn; try discriminate.
+    induction fs as [|[p t] fs IH]; intros [|ov vs] HP Hty Hv Hr Hn; try discriminate.
     - exists []. split; [reflexivity|cbn; lia].
     - inversion HP as [|? ? HPt HPr]; subst. cbn [snd] in HPt.
       cbn [forallb] in Hty, Hr. apply andb_prop in Hty. apply andb_prop in Hr.
@@ -450,8 +553,7 @@ Section Total.
       destruct ov as [x|].
       + (* present *)
         set (o' := if omit then mkOpts (o_def o) (o_chunk o) (match p with Opt => true | _ => false end) else o).
-        assert (Ho': o_chunk o' = 0) by (unfold o'; destruct omit; [exact Ho|exact Ho]).
-        destruct (HPt o' x Htt Hv1 Hr1 Ho') as (b & Eb & Hb); [unfold esize; lia|].
+        destruct (HPt o' x Htt Hv1 Hr1) as (b & Eb & Hb); [unfold esize; lia|].
         assert (Hemit: exists parts,
                   (do b0 <- enc_with c (enc_content c) t o' x; do rest0 <- enc_rec_fields_c c cd omit o fs vs;
                    Ok ((set_sort_key (match cd with EcSetDer => true | _ => false end) t x, b0) :: rest0)) = Ok parts
@@ -496,7 +598,7 @@ Section Total.
   Theorem content_total : forall T, Pc T.
   Proof.
     induction T as [| | | | | | | | n|fs IH|fs IH|t IH|t IH|alts IH| |tg x IH|tg x IH] using ty_ind';
-      intros cd fl o v Hce Hty Hv Hr Ho Hn; pose proof (concrete_encoder_compat _ _ _ _ Hce) as Hk;
+      intros cd fl o v Hce Hty Hv Hr Hn; pose proof (concrete_encoder_compat _ _ _ _ Hce) as Hk;
       unfold key_of in Hk; cbn [base_of] in Hk.
     - (* BOOLEAN *)
       destruct v; try discriminate Hv. destruct cd; try discriminate Hk; cbn [enc_content]; eexists; eexists; (split; [reflexivity|cbn; lia]).
@@ -507,13 +609,12 @@ Section Total.
       destruct v; try discriminate Hv. destruct cd; try discriminate Hk. cbn [enc_content csize].
       eexists; eexists; split; [reflexivity|apply enc_integer_len].
     - (* BIT STRING *)
-      destruct v; try discriminate Hv. destruct cd; try discriminate Hk; cbn [enc_content csize].
-      + unfold enc_bits. rewrite Ho. cbn [N.eqb orb]. eexists; eexists; split; [reflexivity|cbn [enc_bits_prim length]; lia].
-      + rewrite Ho. cbn [N.ltb N.compare]. unfold enc_bits. rewrite Ho. cbn [N.eqb orb].
-        eexists; eexists; split; [reflexivity|cbn [enc_bits_prim length]; lia].
+      destruct v; try discriminate Hv. cbn [csize] in Hn. destruct cd; try discriminate Hk; cbn [enc_content csize].
+      + apply enc_bits_total. exact Hn.
+      + apply enc_bits_total. exact Hn.
     - (* OCTET STRING *)
-      destruct v; try discriminate Hv. destruct cd; try discriminate Hk. cbn [enc_content csize].
-      unfold enc_octets_like. cbn [octets_of]. rewrite Ho. cbn [N.eqb orb]. eexists; eexists; split; [reflexivity|lia].
+      destruct v; try discriminate Hv. destruct cd; try discriminate Hk. cbn [enc_content csize octets_of] in *.
+      apply (octets_like_total o (VOcts b) b eq_refl Hn).
     - (* NULL *)
       destruct v; try discriminate Hv. destruct cd; try discriminate Hk. cbn [enc_content csize].
       eexists; eexists; split; [reflexivity|cbn; lia].
@@ -525,30 +626,31 @@ Section Total.
       destruct cd; try discriminate Hk; cbn [enc_content csize]; rewrite Eb; cbn [bind]; eexists; eexists; (split; [reflexivity|lia]).
     - (* character / useful strings *)
       cbn [enc_ty] in Hty. rewrite Hce in Hty. destruct cd; try discriminate Hty.
-      cbn [enc_content csize]. unfold enc_octets_like.
-      destruct v; try discriminate Hv; cbn [octets_of]; rewrite Ho; cbn [N.eqb orb]; eexists; eexists; (split; [reflexivity|lia]).
+      cbn [enc_content]. destruct v; try discriminate Hv; cbn [csize octets_of] in *.
+      + apply (octets_like_total o (VOcts b) b eq_refl Hn).
+      + apply (octets_like_total o (VChars cs) (concat cs) eq_refl Hn).
     - (* SEQUENCE *)
       destruct v as [| | | | | | | |vs| | |]; try discriminate Hv. rewrite enc_content_seq_c, csize_seq in *.
       unfold val_of in Hv. rewrite val_ofx_seq in Hv.
-      destruct (fields_total cd (rec_omit cd fl) o Ho fs vs) as (parts & Ep & Hp); try assumption.
+      destruct (fields_total cd (rec_omit cd fl) o fs vs) as (parts & Ep & Hp); try assumption.
       { revert IH. apply Forall_impl. intros f Hf. apply Pc_Pw. exact Hf. }
       rewrite Ep. cbn [bind]. apply rec_finish_total; [|exact Hp].
       destruct cd; try discriminate Hk; auto.
     - (* SET *)
       destruct v as [| | | | | | | |vs| | |]; try discriminate Hv. rewrite enc_content_set_c, csize_set in *.
       unfold val_of in Hv. rewrite val_ofx_set in Hv.
-      destruct (fields_total cd (rec_omit cd fl) o Ho fs vs) as (parts & Ep & Hp); try assumption.
+      destruct (fields_total cd (rec_omit cd fl) o fs vs) as (parts & Ep & Hp); try assumption.
       { revert IH. apply Forall_impl. intros f Hf. apply Pc_Pw. exact Hf. }
       rewrite Ep. cbn [bind]. apply rec_finish_total; [|exact Hp].
       destruct cd; try discriminate Hk; auto.
     - (* SEQUENCE OF *)
       destruct v as [| | | | | | | | |xs| |]; try discriminate Hv. rewrite enc_content_seqof_c, csize_seqof in *.
-      destruct (elems_total t o (Pc_Pw _ IH) Hty Ho xs Hv Hr Hn) as (parts & Ep & Hp).
+      destruct (elems_total t o (Pc_Pw _ IH) Hty xs Hv Hr Hn) as (parts & Ep & Hp).
       rewrite Ep. cbn [bind]. apply seqof_finish_total; [|exact Hp].
       destruct cd; try discriminate Hk; auto.
     - (* SET OF *)
       destruct v as [| | | | | | | | |xs| |]; try discriminate Hv. rewrite enc_content_setof_c, csize_setof in *.
-      destruct (elems_total t o (Pc_Pw _ IH) Hty Ho xs Hv Hr Hn) as (parts & Ep & Hp).
+      destruct (elems_total t o (Pc_Pw _ IH) Hty xs Hv Hr Hn) as (parts & Ep & Hp).
       rewrite Ep. cbn [bind]. apply seqof_finish_total; [|exact Hp].
       destruct cd; try discriminate Hk; auto.
     - (* CHOICE *)
@@ -556,7 +658,7 @@ Section Total.
       rewrite enc_content_choice_c, csize_choice in *.
       unfold val_of in Hv. cbn [val_ofx] in Hv. apply choice_go_inv in Hv.
       destruct Hv as [(a & Hna & Hva)|(_ & He & _)]; [|discriminate He].
-      apply (alt_total o x Ho Hr alts i a); try assumption.
+      apply (alt_total o x Hr alts i a); try assumption.
       revert IH. apply Forall_impl. intros a0 Ha0. apply Pc_Pw. exact Ha0.
     - (* ANY *)
       destruct cd; try discriminate Hk. cbn [enc_content csize].
@@ -577,33 +679,34 @@ End Total.
 (* main theorems: re-encodability                                                             *)
 (* ------------------------------------------------------------------------------------------ *)
 
-(* every well-formed value of a writable type is accepted by the BER and the DER encoder, unless its
-   encoding would need 256^126 octets or more, or holds a binary REAL with |exponent| >= 2^2039 *)
-Theorem wellformed_is_encodable : forall c T v,
-  c = BER \/ c = DER -> enc_ty c T = true -> val_of T v = true -> reals_fit v = true ->
+(* every well-formed value of a writable type is accepted by each codec's encoder in every mode
+   (definite / indefinite, any segment size), unless its encoding would need 256^126 octets or more,
+   or it holds a binary REAL with |exponent| >= 2^2039 *)
+Theorem wellformed_is_encodable : forall c defm chunk T v,
+  enc_ty c T = true -> val_of T v = true -> reals_fit v = true ->
   N.of_nat (esize T v) < max_len ->
-  exists b', encode c true 0 T v = Ok b' /\ (length b' <= esize T v)%nat.
+  exists b', encode c defm chunk T v = Ok b' /\ (length b' <= esize T v)%nat.
 Proof.
-  intros c T v Hc Hty Hv Hr Hn. unfold encode, enc.
-  apply (enc_total c Hc T (mkOpts true 0 false) v Hty Hv Hr eq_refl Hn).
+  intros c defm chunk T v Hty Hv Hr Hn. unfold encode, enc.
+  apply (enc_total c T (mkOpts defm chunk false) v Hty Hv Hr Hn).
 Qed.
 
-(* whatever the BER or DER decoder accepts under a guiding type of the fragment - for EVERY input -
-   is a well-formed value of that type which the same codec's encoder accepts *)
+(* whatever a decoder accepts under a guiding type of the fragment - for EVERY input - is a
+   well-formed value of that type which the same codec's encoder accepts *)
 Theorem accepted_is_reencodable : forall c fuel T b d tl,
-  c = BER \/ c = DER -> frag_for c T = true -> enc_ty c T = true ->
+  frag_for c T = true -> enc_ty c T = true ->
   decode_with c fuel (Some T) b = Ok (d, tl) ->
   exists v, d = DV T v /\ val_of T v = true
             /\ (reals_fit v = true -> N.of_nat (esize T v) < max_len -> exists b', encode c true 0 T v = Ok b').
 Proof.
-  intros c fuel T b d tl Hc HF Hty H.
+  intros c fuel T b d tl HF Hty H.
   destruct (accepted_is_well_formed c fuel T b d tl HF H) as (v & -> & Hv & _).
   exists v. split; [reflexivity|]. split; [exact Hv|]. intros Hr Hn.
-  destruct (wellformed_is_encodable c T v Hc Hty Hv Hr Hn) as (b' & E & _). exists b'. exact E.
+  destruct (wellformed_is_encodable c true 0 T v Hty Hv Hr Hn) as (b' & E & _). exists b'. exact E.
 Qed.
 
 Corollary accepted_is_reencodable_decode : forall c T b d tl,
-  c = BER \/ c = DER -> frag_for c T = true -> enc_ty c T = true ->
+  frag_for c T = true -> enc_ty c T = true ->
   decode c (Some T) b = Ok (d, tl) ->
   exists v, d = DV T v /\ val_of T v = true
             /\ (reals_fit v = true -> N.of_nat (esize T v) < max_len -> exists b', encode c true 0 T v = Ok b').
@@ -625,4 +728,67 @@ Example accepted_is_reencodable_witness :
       /\ decode BER (Some T) [48;128; 2;3;0;0;5; 133;2;42;3; 49;129;8; 9;3;128;255;5; 9;1;64; 0;0] = Ok (DV T v, [])
       /\ reals_fit v = true /\ N.ltb (N.of_nat (esize T v)) max_len = true
       /\ encode BER true 0 T v = Ok [48;17; 2;1;5; 133;2;42;3; 49;8; 9;3;128;255;5; 9;1;64]).
+Proof. repeat split; vm_compute; reflexivity. Qed.
+
+(* CER (indefinite, segmenting) and a BER mode with two-octet segments *)
+Example accepted_is_reencodable_witness_cer :
+  let T := TSeq [(Req, TOcts); (Opt, TBits); (Req, TSetOf TInt)] in
+  let v := VRec [Some (VOcts [1;2;3;4;5]); Some (VBits [true;false;true;true]); Some (VList [VInt 9; VInt 3])] in
+  frag_for CER T = true /\ enc_ty CER T = true
+  /\ decode CER (Some T) [48;128; 36;128; 4;2;1;2; 4;3;3;4;5; 0;0; 3;2;4;176; 49;128; 2;1;9; 2;1;3; 0;0; 0;0] = Ok (DV T v, [])
+  /\ reals_fit v = true /\ N.ltb (N.of_nat (esize T v)) max_len = true
+  /\ encode CER true 0 T v = Ok [48;128; 4;5;1;2;3;4;5; 3;2;4;176; 49;128; 2;1;3; 2;1;9; 0;0; 0;0]
+  /\ encode BER false 2 T v = Ok [48;128; 36;128; 4;2;1;2; 4;2;3;4; 4;1;5; 0;0; 3;2;4;176; 49;128; 2;1;9; 2;1;3; 0;0; 0;0].
+Proof. repeat split; vm_compute; reflexivity. Qed.
+
+(* ---------------- accepted by the decoder, refused by the same codec's encoder ---------------- *)
+
+(* R1. CER/DER: GeneralizedTime / UTCTime contents are not examined by the decoder, while the encoder
+   insists on the canonical form ('Missing "Z" time zone specifier', length limits) *)
+Example der_time_accepted_not_reencodable :
+  decode DER (Some (TStr 24)) [24;3;97;98;99] = Ok (DV (TStr 24) (VOcts [97;98;99]), [])
+  /\ val_of (TStr 24) (VOcts [97;98;99]) = true
+  /\ encode DER true 0 (TStr 24) (VOcts [97;98;99]) = Err EMalformed
+  /\ decode DER (Some (TStr 23)) [23;1;90] = Ok (DV (TStr 23) (VOcts [90]), [])
+  /\ encode DER true 0 (TStr 23) (VOcts [90]) = Err EMalformed
+  /\ enc_ty DER (TStr 24) = false /\ enc_ty DER (TStr 23) = false /\ enc_ty BER (TStr 24) = true.
+Proof. repeat split; vm_compute; reflexivity. Qed.
+
+(* R2. a binary REAL in base 16 with a 255-octet exponent: accepted; its exponent times 4 no longer
+   fits 255 octets and the encoder refuses ('Real exponent overflow').  262 octets of input. *)
+Definition huge_real : bytes := [9;130;1;2; 163;255;127] ++ repeat 255 254 ++ [1].
+Example real_exponent_accepted_not_reencodable :
+  match decode BER (Some TReal) huge_real with
+  | Ok (DV T v, tl) => T = TReal /\ tl = [] /\ val_of TReal v = true /\ reals_fit v = false
+                       /\ encode BER true 0 TReal v = Err EMalformed
+  | _ => False
+  end.
+Proof. vm_compute. repeat split; reflexivity. Qed.
+
+(* R3. the valueless tagged CHOICE of [valueless_tagged_choice_accepted] (Proofs/AcceptedWellFormed.v)
+   is refused as well: a0 80 00 00 decodes, the result cannot be encoded *)
+
+(* R4. outside [enc_ty] by the model's choice, not a refusal of the library: a DEFAULT of type REAL
+   (or of a constructed type) is compared by float / object equality, which the model declines *)
+Example default_real_unmodelled :
+  let T := TSeq [(Def (VReal (RBin 1 0)), TReal)] in
+  decode BER (Some T) [48;5;9;3;128;0;3] = Ok (DV T (VRec [Some (VReal (RBin 3 0))]), [])
+  /\ encode BER true 0 T (VRec [Some (VReal (RBin 3 0))]) = Err EUnmodelled /\ enc_ty BER T = false.
+Proof. repeat split; vm_compute; reflexivity. Qed.
+
+(* ---------------- DER: re-encoding does NOT give back the consumed octets ---------------- *)
+
+(* the property's last clause (for DER, b' = the consumed part of b) is false of the model: the DER
+   decoder accepts padded INTEGERs, long-form lengths and tags, an empty INTEGER, unsorted SET OF
+   and an encoded DEFAULT value *)
+Example der_accepts_non_canonical :
+  decode DER (Some TInt) [2;2;0;5] = Ok (DV TInt (VInt 5), []) /\ encode DER true 0 TInt (VInt 5) = Ok [2;1;5]
+  /\ decode DER (Some TInt) [2;129;1;5] = Ok (DV TInt (VInt 5), [])
+  /\ decode DER (Some TInt) [31;2;1;5] = Ok (DV TInt (VInt 5), [])
+  /\ decode DER (Some TInt) [2;0] = Ok (DV TInt (VInt 0), []) /\ encode DER true 0 TInt (VInt 0) = Ok [2;1;0]
+  /\ decode DER (Some (TSetOf TInt)) [49;6;2;1;9;2;1;3] = Ok (DV (TSetOf TInt) (VList [VInt 9; VInt 3]), [])
+  /\ encode DER true 0 (TSetOf TInt) (VList [VInt 9; VInt 3]) = Ok [49;6;2;1;3;2;1;9]
+  /\ decode DER (Some (TSeq [(Def (VBool false), TBool)])) [48;3;1;1;0]
+     = Ok (DV (TSeq [(Def (VBool false), TBool)]) (VRec [Some (VBool false)]), [])
+  /\ encode DER true 0 (TSeq [(Def (VBool false), TBool)]) (VRec [Some (VBool false)]) = Ok [48;0].
 Proof. repeat split; vm_compute; reflexivity. Qed.
